@@ -754,7 +754,7 @@ func TestC07(t *testing.T) {
 	if !r.Quick() && os.Getenv("VERIF_RACE") != "1" {
 		s.tcpCases()
 	}
-	// path classes this check exists for; minima are ~1/10 of what a quick run measures
+	// path classes this check exists for; minima are ~1/10 of what a run of that size measures
 	for k, min := range map[string]int{
 		"ok_eager_exact": 500, "ok_eager_matchfn": 500, "ok_optimistic_exact": 500, "ok_optimistic_matchfn": 500,
 		"ok_eager_first_use_is_a_read": 300, "ok_optimistic_first_use_is_a_read": 300,
@@ -766,9 +766,7 @@ func TestC07(t *testing.T) {
 		"knowledge_mode_superset": 1000, "knowledge_mode_partial": 1000,
 		"opens_basic_to_basic": 5000, "opens_basic_to_blank": 500, "opens_blank_to_basic": 500,
 	} {
-		if n < 4000 { // race pass: fewer cases
-			min = max(1, min*n/4000)
-		}
+		min = max(1, min*n/4000) // race pass: fewer cases; thorough: more
 		r.Require(k, min)
 	}
 }
